@@ -584,4 +584,15 @@ def storage_fp(agent) -> Dict[Tuple[int, int], str]:
         for n_, p in hc.items():
             fp[(id(p), 3)] = f"rlparam:{n_}"
     fp[(id(agent.registry), 4)] = "registry"
+    rms = getattr(agent, "obs_rms", None) if type(agent).__name__ == "RSNorm" else None
+    if rms is not None:
+        stack = [rms]
+        while stack:
+            x = stack.pop()
+            if isinstance(x, dict):
+                stack.extend(x.values())
+            elif isinstance(x, (tuple, list)):
+                stack.extend(x)
+            else:
+                fp[(id(x), 5)] = "wrapper:obs_rms"
     return fp
